@@ -1,6 +1,8 @@
 import MpgsModel.Props.C06
 import MpgsModel.Props.C07
 import MpgsModel.Props.C09
+import MpgsModel.Lemmas.LiveBuild
+import MpgsModel.Model.ToyAead
 /-!
 # C05 — Guaranteed sends are eventually delivered, for every size, from both APIs
 
@@ -78,5 +80,83 @@ theorem C05_fragments_delivered_without_expiry :
     let f2 := fragPrefix 9 2 2 ++ [2, 2, 2]
     (recvAppFragment (recvAppFragment c0 0 2 f2).1 900 1 f1).2.1 = [.deliver 1 [1, 1, 1, 2, 2, 2]] := by
   decide +kernel
+
+
+/-! ### safety half: the sender never loses a guaranteed message
+
+`Alive rid c` (Lemmas/Live.lean): the `RetrySender` object `rid` exists and the message it carries
+is queued in `outgoing`, or parked in `pending_callbacks` under a datagram that is still in
+`pending_acks` (so its acknowledgement or its time-out will run the callback), or reported
+delivered (`done`).  Nothing but `disconnect` can end that. -/
+
+/-- the datagram number a build is about to use does not collide with a parked callback list, at
+every build of the history (false only with 65535 datagrams unresolved at once) -/
+def FreshAlong (E : Env) : Conn → List Op → Prop
+  | _, [] => True
+  | c, op :: ops => (∀ t, op = .build t → FreshSeq c) ∧ FreshAlong E (step E c op).1 ops
+
+def NoDisconnect : List Op → Prop
+  | [] => True
+  | .disconnect _ :: _ => False
+  | _ :: ops => NoDisconnect ops
+
+theorem step_typed (E : Env) (hR : E.R.KeepsTyped) (c : Conn) (op : Op) (h : Typed c) :
+    Typed (step E c op).1 := xstep_typed E hR c (.base op) h
+
+/-- **A guaranteed single-datagram send is alive at once**: it is queued under a fresh sender object. -/
+theorem C05_send_is_alive (sz : Sizes) (c : Conn) (p : Bytes) (cb : Option Nat)
+    (hs : c.status = .connected) (hp : p.length ≤ sz.maxPayload) :
+    Alive c.retryObjs.length (send sz c p (-1) cb).1 := alive_send_new sz c p cb hs hp
+
+/-- **One operation never loses it.** For every state, every operation other than `disconnect`
+(send of anything, building and emitting a datagram, receiving ANY datagram - genuine, duplicate,
+forged, acknowledging or not -, the time-out sweep, the application draining its inbox). -/
+theorem C05_never_dropped_step (E : Env) (hR : E.R.KeepsAlive) (rid : Nat) (c : Conn) (op : Op)
+    (hop : ∀ cb, op ≠ .disconnect cb) (ht : Typed c) (hf : ∀ t, op = .build t → FreshSeq c)
+    (hl : Alive rid c) : Alive rid (step E c op).1 := by
+  cases op with
+  | send p r cb =>
+    have := alive_ext (ext_send E.sz c p r cb) hl
+    simp only [step]
+    split <;> simp_all
+  | build t =>
+    simp only [step_build_fst]
+    exact alive_buildPacket rid E.sz c t ht (hf t rfl) hl
+  | recv t hd d => exact alive_recvDatagram rid E.C E.R hR c t hd d hl
+  | tmo t => exact alive_checkTimeout rid c t hl
+  | disconnect cb => exact absurd rfl (hop cb)
+  | take => exact alive_congr rfl rfl rfl rfl hl
+
+/-- **No history loses it** (histories of any length, any interleaving of sends, builds, received
+datagrams, time-outs; the connection stays open = no `disconnect`). -/
+theorem C05_never_dropped (E : Env) (hR : E.R.KeepsAlive) (hT : E.R.KeepsTyped) (rid : Nat)
+    (c : Conn) (ops : List Op) (hnd : NoDisconnect ops) (ht : Typed c) (hf : FreshAlong E c ops)
+    (hl : Alive rid c) : Alive rid (run E c ops).1 := by
+  induction ops generalizing c with
+  | nil => exact hl
+  | cons op ops ih =>
+    simp only [run]
+    have hop : ∀ cb, op ≠ .disconnect cb := by
+      intro cb e; subst e; exact hnd
+    have hnd' : NoDisconnect ops := by
+      cases op <;> first | exact hnd | exact absurd rfl (hop _)
+    exact ih (step E c op).1 hnd' (step_typed E hT c op ht) hf.2
+      (C05_never_dropped_step E hR rid c op hop ht hf.1 hl)
+
+/-- non-vacuity: a connected fresh endpoint, one guaranteed send, a build, a time-out far in the
+future, another build - the hypotheses hold and the message is alive throughout (here: re-queued
+and sent again) -/
+example :
+    let E : Env := ⟨⟨1500⟩, Mpgs.Toy.crypto, baseRole⟩
+    let c0 : Conn := { isServer := false, status := .connected, key := some [1] }
+    let ops : List Op := [.send [7, 7] (-1) none, .build 100, .tmo 5000, .build 6000]
+    NoDisconnect ops ∧ FreshAlong E c0 ops ∧
+    (run E c0 ops).1.pendingCbs.any (fun x => x.2.contains (.retry 0)) = true := by
+  intro E c0 ops
+  refine ⟨by simp [ops, NoDisconnect], ?_, by decide +kernel⟩
+  simp only [ops, FreshAlong]
+  refine ⟨fun t h => Op.noConfusion h, fun t _ => ?_, fun t h => Op.noConfusion h, fun t _ => ?_, trivial⟩
+  · unfold FreshSeq; decide +kernel
+  · unfold FreshSeq; decide +kernel
 
 end Mpgs.Conn
